@@ -706,3 +706,67 @@ def run_eqonly(P, rep, rule="R-EQONLY"):
             rep.viol(rule, site + " no-eq", P.where(root), "no ValueViewCmp equality found: %s" % why)
         else:
             rep.ok(rule, site, P.where(root), "identity decided by ValueViewCmp == only (%d comparison sites)" % eqs)
+
+
+# ---------------------------------------------------------------------------------------
+# R-CONTAINS: `contains` on an array is membership under the value model's equality
+
+def run_contains(P, rep, rule="R-CONTAINS"):
+    """In contains_check the region selected by `a.as_array()` being Some decides membership by ValueViewCmp == only:
+    it never looks at a string rendering (to_kstr / to_string / str ==) of the needle or of an element."""
+    fn = P.fn_by_key("liquid_lib::stdlib::blocks::if_block::contains_check")
+    site = "contains_check array branch"
+    asarr = [(bi, t) for bi, t in P.calls(fn) if t.get("f") and t["f"]["id"].endswith("ValueView::as_array")]
+    if len(asarr) != 1:
+        rep.viol(rule, site, P.where(fn), "expected one as_array() probe, found %d" % len(asarr))
+        return
+    bi, t = asarr[0]
+    d = t["d"][0]
+    some = none = None
+    cur = t["t"]
+    for _ in range(6):
+        b = fn.blocks[cur]
+        tt = b["t"]
+        if tt["k"] == "switch":
+            ol = op_local(tt["o"])
+            if any(st[0] == "a" and ol and st[1][0] == ol[0] and st[2]["k"] == "discr" and st[2]["p"][0] == d for st in b["s"]):
+                some = [tb for v, tb in tt["t"] if v == 1] or [tt["else"]]
+                none = [tb for v, tb in tt["t"] if v == 0] or [tt["else"]]
+            break
+        cur = tt.get("t") if tt["k"] in ("goto", "drop") else None
+        if cur is None:
+            break
+    if some is None:
+        rep.viol(rule, site, P.where(fn), "no branch on the as_array() probe")
+        return
+    region = P.reach(fn, some) - P.reach(fn, none)
+    bodies = [(fn, region)]
+    for b2 in region:
+        for st in fn.blocks[b2]["s"]:
+            if st[0] == "a" and st[2]["k"] == "agg" and st[2].get("ak") == "closure" and st[2]["id"] in P.fns:
+                c = P.fns[st[2]["id"]]
+                bodies.append((c, set(range(len(c.blocks)))))
+    eqs = 0
+    bad = []
+    for body, reg in bodies:
+        for b2, t2 in P.calls(body):
+            if b2 not in reg or not t2.get("f"):
+                continue
+            f = t2["f"]
+            last = f["id"].rsplit("::", 1)[1]
+            st_ = P.tstr(body.crate, f["self_ty"]) if "self_ty" in f else ""
+            if f["id"] in ("core::cmp::PartialEq::eq", "core::cmp::PartialEq::ne"):
+                if "ValueViewCmp" in st_:
+                    eqs += 1
+                else:
+                    bad.append((body, t2["line"], "== on %s" % (st_ or "?")))
+            elif last in ("to_kstr", "to_string", "render", "source", "to_lowercase") and (f.get("trait", "").endswith(("ValueView", "ToString")) or "ScalarCow" in f["name"]):
+                bad.append((body, t2["line"], f["name"]))
+    if bad:
+        for body, line, what in bad[:4]:
+            rep.viol(rule, site + " uses " + what.rsplit("::", 1)[-1], P.where(body, line),
+                     "array membership is decided through %s, not the value model's equality (ValueViewCmp ==): `contains` would disagree with `==`" % what)
+    elif eqs == 0:
+        rep.viol(rule, site + " no-eq", P.where(fn), "no ValueViewCmp equality in the array branch of contains_check")
+    else:
+        rep.ok(rule, site, P.where(fn), "membership by ValueViewCmp == (%d site), no string rendering in the array branch" % eqs)
